@@ -371,11 +371,12 @@ def matrix_pivot(m, sign=False):
     n = len(mp)
     p = [list(row) for row in matrix_identity(n)]  # permutation matrix (copy: the identity matrix is memoized)
     num_rowswap = 0
+    elim = [[float(v) for v in row_m] for row_m in mp]  # eliminated copy of M: pivots must be chosen on it
     for j in range(0, n):
         row = j
         a_max = 0.0
         for i in range(j, n):
-            a_abs = abs(mp[i][j])
+            a_abs = abs(elim[i][j])
             if a_abs > a_max:
                 a_max = a_abs
                 row = i
@@ -385,6 +386,13 @@ def matrix_pivot(m, sign=False):
                 # Swap rows
                 p[j][q], p[row][q] = p[row][q], p[j][q]
                 mp[j][q], mp[row][q] = mp[row][q], mp[j][q]
+                elim[j][q], elim[row][q] = elim[row][q], elim[j][q]
+        # Eliminate the column below the pivot (partial pivoting needs the updated columns)
+        if elim[j][j] != 0.0:
+            for i in range(j + 1, n):
+                factor = elim[i][j] / elim[j][j]
+                for q in range(j, n):
+                    elim[i][q] -= factor * elim[j][q]
     if sign:
         return mp, p, math.pow(-1, num_rowswap)
     return mp, p
